@@ -51,9 +51,21 @@ theorem C01_accounting (s s' : Loop.St) (rf : Bool) (h : Loop.step s rf = some s
 
 /-- **replies come from the stream**, all runs of the byte-level task model: see `Loop.Good` -/
 theorem C01_replies_from_stream (s0 s : Loop.St) (D : Bytes) (h0 : Loop.AfterGreeting s0) (hr : Loop.Run s0 s D) :
-    ∃ rs, (∀ q, Loop.Decodes .initial (D ++ q) rs (Loop.future s q)) ∧
-      Loop.Attr rs (Loop.responses s.obs) (Loop.eventsOf s.obs) :=
+    ∃ cs : List (Loop.Consumer × Builder.Response),
+      (∀ q, Loop.Decodes .initial (D ++ q) (cs.map (·.2)) (Loop.future s q)) ∧
+      Loop.Attr cs (Loop.responses s.obs) (Loop.eventsOf s.obs) ∧
+      (Loop.Terminal s ∨ Loop.replyWrites s.obs = cs.map (·.1) ++ Loop.outstanding s.pc) :=
   (Loop.run_decodes s0 s D h0 hr).2
+
+/-- **pairing by position**, all runs: the j-th response of the stream is consumed by the consumer
+of the j-th reply-producing line written (a request's caller, the idle loop, the password verdict),
+and at most one such line is ever unanswered — so with a server that answers lines in order, every
+caller gets the reply to its own request -/
+theorem C01_one_outstanding (s0 s : Loop.St) (D : Bytes) (h0 : Loop.AfterGreeting s0) (hr : Loop.Run s0 s D) :
+    Loop.Terminal s ∨ ∃ cs : List (Loop.Consumer × Builder.Response),
+      (∀ q, Loop.Decodes .initial (D ++ q) (cs.map (·.2)) (Loop.future s q)) ∧
+      Loop.replyWrites s.obs = cs.map (·.1) ++ Loop.outstanding s.pc ∧ (Loop.outstanding s.pc).length ≤ 1 :=
+  Loop.one_outstanding s0 s D h0 hr
 
 /-- one step: the reply resolved for the request in flight is exactly the next response of the stream -/
 theorem C01_step_effect (s s' : Loop.St) (rf : Bool) (hc : s.pc ≠ .connecting) (h : Loop.step s rf = some s') :
